@@ -278,6 +278,15 @@ def run(tier):
                 continue
             if not (a == b == c):
                 failures.append(dict(kind='program', summary=f'copy(freeze=True) of a {st} stage above a per-epoch reshuffle (n={n}, seed {seed}) is not frozen: {a} / {b} / {c}'[:600], config=dict(stage=st, n=n, seed=seed)))
+            # copy() WITHOUT arguments is not a frozen copy: per-epoch stages below keep drawing new orders
+            if st not in ('local', 'cycle', 'prefetch1', 'parmap'):
+                try:
+                    cp = d.copy()
+                    e1, e2, e3 = [repr(x) for x in cp], [repr(x) for x in cp], [repr(x) for x in cp]
+                    if e1 == e2 == e3 and n >= 5:
+                        failures.append(dict(kind='program', summary=f'copy() (no arguments) of a {st} stage above a per-epoch reshuffle of {n} examples gives the same order in three epochs: it behaves like a frozen copy', config=dict(stage=st, n=n, seed=seed)))
+                except Exception as e:
+                    failures.append(dict(kind='program', summary=f'copy() of a {st} stage above a reshuffle raised {type(e).__name__}: {e}'[:300], config=dict(stage=st, n=n, seed=seed)))
             for obj, what in ((d, st + ' above a reshuffle'), (rs, 'reshuffle')):
                 try:
                     if obj.indexable:
@@ -329,6 +338,12 @@ def run(tier):
             if ea != eb:
                 failures.append(dict(kind='program', summary=f'{kind} shuffle of range({n}) (seed {seed}, {"dict" if keyed else "list"}): after a {probe} probe the epochs are {eb}, an untouched twin gives {ea}',
                                      config=dict(n=n, seed=seed, kind=kind, probe=probe, keyed=keyed)))
+        # apply(fn) is eager unless lazy=True is given: fn runs once, at once, and the result is what fn returned
+        seen = []
+        base = ld.new(list(range(4)))
+        res = base.apply(lambda d: (seen.append(1), d.map(lambda x: x + 1))[1])
+        if seen != [1] or type(res).__name__ != 'MapDataset' or list(res) != [1, 2, 3, 4]:
+            failures.append(dict(kind='program', summary=f'ds.apply(fn) without lazy=True: fn ran {len(seen)} times at the call, result is a {type(res).__name__}', config={}))
         # (5) copy() preserves every configuration parameter of every stage
         for msg in copy_params(ld):
             failures.append(dict(kind='program', summary=msg, config={}))
